@@ -13,11 +13,17 @@ d = os.path.abspath(sys.argv[1]); pid = sys.argv[2]
 skip_base = "--skip-baseline" in sys.argv
 tier = sys.argv[sys.argv.index("--tier") + 1] if "--tier" in sys.argv else "quick"
 patch = os.path.join(d, "patch.diff"); demo = os.path.join(d, "demo.py")
+# a change written against an older HEAD whose context was touched by a later fix: commit: patch_rebased.diff is the same
+# change re-applied by hand on the current HEAD
+if os.path.exists(os.path.join(d, "patch_rebased.diff")) and subprocess.run(
+    "git -C /repo apply --check %s" % patch, shell=True, capture_output=True).returncode != 0:
+  patch = os.path.join(d, "patch_rebased.diff")
 env = dict(os.environ, TF_USE_LEGACY_KERAS="1", TF_CPP_MIN_LOG_LEVEL="3", CUDA_VISIBLE_DEVICES="",
            PROTOCOL_BUFFERS_PYTHON_IMPLEMENTATION="python", PYTHONWARNINGS="ignore")
 wt = "/tmp/seedwt_%s_%d" % (pid, os.getpid())
 def sh(cmd, **kw): return subprocess.run(cmd, shell=True, capture_output=True, text=True, **kw)
-res = {"dir": d, "property": pid}
+res = {"dir": d, "property": pid, "patch_file": os.path.basename(patch),
+       "base_commit": subprocess.run("git -C /repo rev-parse --short HEAD", shell=True, capture_output=True, text=True).stdout.strip()}
 sh("git -C /repo worktree add -f %s HEAD" % wt)
 try:
   e2 = dict(env, PYTHONPATH=wt)
